@@ -134,12 +134,8 @@ def check(run, model, tier):
                 run.inst('SNAPSHOT.cancel', stop, 'each tracked record is handed to cancel_events', ok, 'cancel_events receives %s' % norm(c), node=c, obligation=True)
     # the record type has the field cancel_events matches on
     ce = ao.methods.get('cancel_events')
-    rec_fields = None
-    for f in ao.methods.values():
-        for n in walk_shallow(f.node):
-            if isinstance(n, ast.Assign) and any((dotted(t) or '').endswith('.PostedEvent') for t in n.targets) and isinstance(n.value, ast.Call) and len(n.value.args) == 2 \
-                    and isinstance(n.value.args[1], ast.List):
-                rec_fields = [e.value for e in n.value.args[1].elts if isinstance(e, ast.Constant)]
+    from sa.util import namedtuple_fields as _ntf
+    rec_fields = _ntf(model, 'PostedEvent')
     ok = rec_fields is not None and 'signal_name' in rec_fields and 'task_run_event' in rec_fields
     run.inst('SNAPSHOT.cancel', ce, 'tracked records carry signal_name and task_run_event', ok, 'record fields are %s' % rec_fields, obligation=True)
     # ---- CONSUMER.exit
